@@ -544,3 +544,62 @@ func TestConcurrentConsumer(t *testing.T) {
 		})
 	})
 }
+
+// ---- totals beyond 2^31 and 2^32 bytes ----
+
+type countingWriter struct{ total int64 }
+
+func (c *countingWriter) Write(p []byte) (int, error) { c.total += int64(len(p)); return len(p), nil }
+
+// TestHugeTotals: a ProgressWriter in front of a multi-gigabyte transfer. The writes are large slices handed to a
+// writer that only counts, so no data is moved; what is exercised is the arithmetic of the running total across the
+// 2 GiB and 4 GiB marks: Size() after every write, the values a draining consumer sees, and the final total.
+func TestHugeTotals(t *testing.T) {
+	chunk := make([]byte, 64<<20)
+	rt.Check(t, 3, 60, func(t *rapid.T) {
+		n := rapid.SampledFrom([]int{31, 32, 33, 63, 64, 65, 70}).Draw(t, "chunks") // 64 MiB each: around 2 GiB and 4 GiB
+		odd := rapid.IntRange(0, 4096).Draw(t, "oddBytes")
+		cw := &countingWriter{}
+		pw := ioutil.NewProgressWriter(cw)
+		var got []int
+		done := make(chan struct{})
+		go func() {
+			defer close(done)
+			for v := range pw.Status() {
+				got = append(got, v)
+			}
+		}()
+		total := 0
+		for i := 0; i < n; i++ {
+			p := chunk
+			if i == n/2 {
+				p = chunk[:len(chunk)-odd]
+			}
+			k, err := pw.Write(p)
+			if k != len(p) || err != nil {
+				t.Fatalf("write #%d returned (%d, %v)", i, k, err)
+			}
+			total += len(p)
+			if s := pw.Size(); s != total {
+				t.Fatalf("after %d writes Size() = %d, the wrapped writer has reported %d bytes in total", i+1, s, total)
+			}
+		}
+		pw.Close()
+		<-done
+		if len(got) == 0 || got[len(got)-1] != total {
+			t.Fatalf("after Close() the last value received is %v, want the final total %d", got[max(0, len(got)-3):], total)
+		}
+		for i := 1; i < len(got); i++ {
+			if got[i] < got[i-1] {
+				t.Fatalf("received values decrease: ... %d, %d ...", got[i-1], got[i])
+			}
+		}
+		if int64(total) != cw.total {
+			t.Fatalf("harness: wrapped writer counted %d, script %d", cw.total, total)
+		}
+		ev.Label("huge_total")
+		ev.Case(true, ev.Hash("huge", fmt.Sprint(n, odd)), func() string {
+			return fmt.Sprintf("%d writes of 64 MiB (one %d bytes shorter): total %d bytes", n, odd, total)
+		})
+	})
+}
